@@ -147,6 +147,8 @@ def check_requires(key, recv, args, kwargs):
         try:
             ok = bool(native_eval(cl["text"], env))
             err = None
+        except TypeError as e:      # an unordered comparison (e.g. None <= 1): the value is not within limits
+            ok, err = False, "TypeError: %s" % e
         except Exception as e:      # noqa
             ok, err = None, "%s: %s" % (type(e).__name__, e)
         if ok is not True:
